@@ -353,6 +353,11 @@ func (w *WSCtx) build() ldcontext.Context {
 		}
 		return c
 	}
+	// several ways to the same context: the builder, the plain constructor, a trip through JSON
+	how := hashStr(fmt.Sprint("ctx/", w.Kind, "/", w.Key, "/", len(w.Attrs))) % 4
+	if how == 1 && len(w.Attrs) == 0 && w.Name == nil && !w.Anon {
+		return ldcontext.NewWithKind(ldcontext.Kind(w.Kind), w.Key)
+	}
 	b := ldcontext.NewBuilder(w.Key).Kind(ldcontext.Kind(w.Kind)).Anonymous(w.Anon)
 	if w.Name != nil {
 		b.Name(*w.Name)
@@ -360,12 +365,24 @@ func (w *WSCtx) build() ldcontext.Context {
 	for _, a := range w.attrs() {
 		b.SetValue(a.K, a.V.toLD())
 	}
-	return b.Build()
+	c := b.Build()
+	if how == 2 && c.Err() == nil {
+		if data, err := json.Marshal(c); err == nil {
+			var c2 ldcontext.Context
+			if json.Unmarshal(data, &c2) == nil && c2.Err() == nil {
+				return c2
+			}
+		}
+	}
+	return c
 }
 
 func (w *WCtx) build() ldcontext.Context {
 	switch w.T {
 	case "single":
+		if hashStr("one/"+w.C.Key)%5 == 0 {
+			return ldcontext.NewMulti(w.C.build()) // a multi-kind constructor handed one member
+		}
 		return w.C.build()
 	case "multi":
 		mb := ldcontext.NewMultiBuilder()
@@ -383,6 +400,12 @@ func (w *WCtx) build() ldcontext.Context {
 		return ldcontext.NewMulti(ldcontext.NewWithKind("org", "a"), ldcontext.NewWithKind("org", "b"))
 	case "multiempty":
 		return ldcontext.NewMulti()
+	case "kindmulti":
+		return ldcontext.NewWithKind("multi", "k")
+	case "badchars":
+		return ldcontext.NewWithKind("org!", "k")
+	case "multibadmember":
+		return ldcontext.NewMulti(ldcontext.New("a"), ldcontext.NewWithKind("org", ""))
 	}
 	return ldcontext.Context{}
 }
@@ -614,6 +637,7 @@ func (w *WVR) build() ldmodel.VariationOrRollout {
 		Kind: ldmodel.RolloutKind(w.RO.Kind), ContextKind: ldcontext.Kind(w.RO.CK),
 		BucketBy: w.RO.By.build(), Seed: optInt(w.RO.Seed),
 	}
+	vr.Rollout.Variations = emptyOrNil[ldmodel.WeightedVariation](fmt.Sprint(w.RO.Kind, w.RO.CK, w.RO.Seed != nil, w.V != nil, "/buckets"))
 	for _, v := range w.RO.Vars {
 		vr.Rollout.Variations = append(vr.Rollout.Variations,
 			ldmodel.WeightedVariation{Variation: v.V, Weight: v.W, Untracked: v.U})
@@ -639,6 +663,15 @@ func buildTargets(ws []WTarget) []ldmodel.Target {
 	return out
 }
 
+// emptyOrNil: an empty list of a hand-built value is nil or empty-but-not-nil, decided by a hash
+// of where it sits (len(x) == 0 and x == nil are different tests; the model sees no difference).
+func emptyOrNil[T any](tag string) []T {
+	if hashStr("empty/"+tag)&1 == 0 {
+		return nil
+	}
+	return make([]T, 0)
+}
+
 // build constructs the real FeatureFlag in the requested form.
 func (w *WFlag) build() *ldmodel.FeatureFlag {
 	f := ldmodel.FeatureFlag{
@@ -656,9 +689,11 @@ func (w *WFlag) build() *ldmodel.FeatureFlag {
 	if w.Meta.Mig != nil {
 		f.Migration = &ldmodel.MigrationFlagParameters{CheckRatio: optInt(w.Meta.Mig.CheckRatio)}
 	}
+	f.Prerequisites = emptyOrNil[ldmodel.Prerequisite](w.Key + "/prereqs")
 	for _, p := range w.Prereqs {
 		f.Prerequisites = append(f.Prerequisites, ldmodel.Prerequisite{Key: p.Key, Variation: p.V})
 	}
+	f.Rules = emptyOrNil[ldmodel.FlagRule](w.Key + "/rules")
 	for i := range w.Rules {
 		r := &w.Rules[i]
 		f.Rules = append(f.Rules, ldmodel.FlagRule{VariationOrRollout: r.VR.build(), ID: r.ID,
@@ -669,6 +704,8 @@ func (w *WFlag) build() *ldmodel.FeatureFlag {
 		ldmodel.PreprocessFlag(&f)
 	case "repre":
 		rePreprocessFlag(&f)
+	case "partial":
+		partialPreprocessFlag(&f, w)
 	case "builder":
 		g := buildWithBuilders(w)
 		return &g
@@ -710,6 +747,7 @@ func (w *WSegment) build() *ldmodel.Segment {
 		ExcludedContexts: buildSegTargets(w.ExcC), Salt: w.Salt, Unbounded: w.Unb,
 		UnboundedContextKind: ldcontext.Kind(w.UnbK), Version: w.Version, Generation: optInt(w.Gen), Deleted: w.Deleted,
 	}
+	s.Rules = emptyOrNil[ldmodel.SegmentRule](w.Key + "/segrules")
 	for i := range w.Rules {
 		r := &w.Rules[i]
 		s.Rules = append(s.Rules, ldmodel.SegmentRule{ID: r.ID, Clauses: buildClauses(r.Clauses),
@@ -720,6 +758,8 @@ func (w *WSegment) build() *ldmodel.Segment {
 		ldmodel.PreprocessSegment(&s)
 	case "repre":
 		rePreprocessSegment(&s)
+	case "partial":
+		partialPreprocessSegment(&s, w)
 	case "builder":
 		g := buildSegmentWithBuilders(w)
 		return &g
